@@ -245,9 +245,10 @@ def r03_5(ctx, rep):
     # children (nothing of pymoca runs: sa/symexec.py walks the handler's AST), so the spelling of the handler does not matter
     from ..symexec import Interp, Obj, SymExecError
 
-    def run_handler(fn, ctx_obj, table):
+    def run_handler(fn, ctx_obj, table, more=None):
         calls_ = {"ast.Slice": lambda **kw: ("Slice", kw.get("start"), kw.get("stop"), kw.get("step")),
                   "ast.Primary": lambda **kw: ("Primary", kw.get("value"))}
+        calls_.update(more or {})
         for k in [a for a in dir(ctx_obj) if not a.startswith("_")]:
             v = getattr(ctx_obj, k)
             if callable(v):
@@ -301,65 +302,25 @@ def r03_5(ctx, rep):
     fn = ms.get(name)
     ok, why = False, "handler missing"
     if fn is not None:
-        ok, why = _if_split(fn)
+        try:
+            ok, why = True, "conditions are the even positions, branch values the odd positions plus the else value"
+            for k in (1, 2, 3):
+                kids = []
+                for i in range(k):
+                    kids += [Obj(label="c%d" % i), Obj(label="e%d" % i)]
+                kids.append(Obj(label="else"))
+                table = {x: x.label for x in kids}
+                ctx_obj = Obj(expression=lambda i=None, _k=kids: _k if i is None else _k[i])
+                calls_ = {"ast.IfExpression": lambda **kw: ("IfExpression", kw.get("conditions"), kw.get("expressions"))}
+                got = run_handler(fn, ctx_obj, table, calls_)
+                want = ("IfExpression", ["c%d" % i for i in range(k)], ["e%d" % i for i in range(k)] + ["else"])
+                if not (isinstance(got, tuple) and len(got) == 3 and got[0] == want[0] and list(got[1] or []) == want[1] and list(got[2] or []) == want[2]):
+                    ok, why = False, "for %d branch(es): stored %r, expected %r" % (k, got, want)
+                    break
+        except SymExecError as e:
+            raise MechanismMissing(R, "%s uses a construct the handler interpreter does not know (%s)" % (name, e))
     rep.ob(R, site, "conditions/branches by position", ok, why)
     rep.require_instances(R, 12, "listener handlers")
-
-
-def _sym_eval(node, env):
-    """Evaluate list-slicing expressions over symbolic lists (no calls)."""
-    if isinstance(node, ast.Name):
-        return env[node.id]
-    if isinstance(node, ast.Constant):
-        return node.value
-    if isinstance(node, ast.UnaryOp) and isinstance(node.op, ast.USub):
-        return -_sym_eval(node.operand, env)
-    if isinstance(node, ast.BinOp) and isinstance(node.op, ast.Add):
-        return _sym_eval(node.left, env) + _sym_eval(node.right, env)
-    if isinstance(node, ast.Subscript):
-        base = _sym_eval(node.value, env)
-        s = node.slice
-        if isinstance(s, ast.Slice):
-            lo = _sym_eval(s.lower, env) if s.lower is not None else None
-            hi = _sym_eval(s.upper, env) if s.upper is not None else None
-            st = _sym_eval(s.step, env) if s.step is not None else None
-            return base[lo:hi:st]
-        return base[_sym_eval(s, env)]
-    if isinstance(node, ast.List):
-        return [_sym_eval(e, env) for e in node.elts]
-    raise ValueError("unsupported: " + norm(node))
-
-
-def _if_split(fn):
-    src_var = None
-    assigns = {}
-    kw = {}
-    for n in walk_local(fn):
-        if isinstance(n, ast.Assign) and len(n.targets) == 1 and isinstance(n.targets[0], ast.Name):
-            if isinstance(n.value, ast.ListComp) and norm(n.value.generators[0].iter) == "ctx.expression()" and not n.value.generators[0].ifs:
-                src_var = n.targets[0].id
-            else:
-                assigns[n.targets[0].id] = n.value
-        if isinstance(n, ast.Call) and (call_name(n) or "").endswith("IfExpression"):
-            kw = {k.arg: k.value for k in n.keywords}
-    if src_var is None or "conditions" not in kw or "expressions" not in kw:
-        return False, "cannot find the list of ctx.expression() children or IfExpression(conditions=, expressions=)"
-    for k in (1, 2, 3):
-        sample = []
-        for i in range(k):
-            sample += ["c%d" % i, "e%d" % i]
-        sample.append("else")
-        env = {src_var: sample}
-        try:
-            for name, val in assigns.items():
-                env[name] = _sym_eval(val, env)
-            conds = _sym_eval(kw["conditions"], env)
-            exprs = _sym_eval(kw["expressions"], env)
-        except Exception as e:  # noqa: BLE001
-            return False, "cannot evaluate the split symbolically: %s" % e
-        if conds != ["c%d" % i for i in range(k)] or exprs != ["e%d" % i for i in range(k)] + ["else"]:
-            return False, "for %d branch(es): conditions=%s expressions=%s" % (k, conds, exprs)
-    return True, "conditions are the even positions, branch values the odd positions plus the else value"
 
 
 @SPEC.rule(
